@@ -46,6 +46,15 @@ func namePool(t *simrt.Tape, n int, allowHuge bool) []string {
 			// 16+len rounds to a multiple of 32: choose lengths around the boundary
 			pool = append(pool, longName(fmt.Sprintf("B%d/", i), 16*(1+t.Draw(250))+t.Draw(3)-1+16))
 		case 4:
+			if t.Bool(1, 3) {
+				// names no record can hold: empty, or longer than the format allows
+				if t.Bool(1, 2) {
+					pool = append(pool, "")
+				} else {
+					pool = append(pool, longName(fmt.Sprintf("X%d/", i), 4097+t.Draw(3000)))
+				}
+				break
+			}
 			if allowHuge {
 				pool = append(pool, longName(fmt.Sprintf("H%d/", i), 4096-t.Draw(3)))
 			} else {
@@ -333,6 +342,9 @@ func (w *world) checkSurvivors() {
 			return
 		}
 		for _, cn := range p.allCounters() {
+			if !recordable(cn.Name()) {
+				continue
+			}
 			if _, _, _, extra, _ := cn.VerifState(); extra != 0 {
 				w.fail("survivor-pending", "surviving process %d: %d of counter %q remain in memory after all calls returned", p.p.ID, extra, short(cn.Name()))
 				return
@@ -347,6 +359,9 @@ func (w *world) checkSurvivors() {
 		names[n] = true
 	}
 	for n := range names {
+		if !recordable(n) {
+			continue // its counts stay in the processes' memory by design
+		}
 		var lo, slack uint64
 		for _, p := range w.procs {
 			if p.p.Dead() {
